@@ -322,6 +322,48 @@ def shared_expressions(R):
                 R.fail("derived|values-after-removal", "values of %s changed after removing an unrelated attribute" % c.label, None)
 
 
+def registration_names(R):
+    """what an attribute depends on is decided by the name it is registered under, not by the target the link object itself carries: one
+    expression registered under two names, a derived component registered under a name of its own, a link whose target is a stored attribute"""
+    from glue.core.component import DerivedComponent
+    from glue.core.component_link import ComponentLink
+    from glue.core.component_id import ComponentID
+
+    def two_names(d):
+        e = d.id['a'] * 2
+        d['twice'] = e
+        d['double'] = e
+        d['more'] = d.id['twice'] + 1
+        return {'twice', 'double', 'more'}, set()
+
+    def own_name(d):
+        d.add_component(DerivedComponent(d, d.id['a'] + 1), 'named')
+        return {'named'}, set()
+
+    def stored_target(d):
+        d.add_component(DerivedComponent(d, ComponentLink([d.id['a']], d.id['b'], using=lambda x: x * 3)), 'through-b')
+        return {'through-b'}, {'b'}
+    for vname, mk in (('one-expression-two-names', two_names), ('own-name', own_name), ('link-targets-stored-attribute', stored_target)):
+        d = mk_data()
+        d.remove_component(d.id['c'])
+        try:
+            gone, kept = mk(d)
+        except Exception:
+            continue
+        d.remove_component(d.id['a'])
+        labels = [c.label for c in d.components]
+        R.count(('registration', vname), 'removal-histories')
+        bad = sorted(l for l in gone if l in labels) + sorted('missing ' + l for l in kept if l not in labels)
+        if bad:
+            R.fail("derived|removal-closure|%s" % vname, "attributes derived from a (%s): after removing a the dataset still lists / lost %s (attributes now: %s)" % (vname, bad, labels), None)
+            continue
+        for c in d.derived_components:
+            try:
+                np.asarray(d[c])
+            except Exception as e:
+                R.fail("derived|survivor-unreadable|%s" % vname, "after removing a the surviving derived attribute %s raises %s" % (c.label, type(e).__name__), None)
+
+
 def replay_shared(variant):
     d = mk_data()
     d.remove_component(d.id['c'])
@@ -475,4 +517,5 @@ def run(tier, seed, R):
     shared_expressions(R)
     removal_histories(R, rng, tier)
     update_id_kinds(R)
+    registration_names(R)
     R.samples.append({"expression": "('/', ('+', 'a', 'p1'), ('**', 'w0', '0.5')) on the full dataset and on each view, vs numpy"})
